@@ -93,6 +93,19 @@ MUTANTS = [
     ('shuffle-drops-a-test', 'C11', S,
      "            self.runner.tests_by_layer_name[layer] = suite.__class__(tests)",
      "            self.runner.tests_by_layer_name[layer] = suite.__class__(tests[1:] if len(tests) > 3 else tests)"),
+    ('no-stream-restore-in-stopTest', 'C18', R,
+     "        self._restoreStdStreams()\n        self.testTearDown()",
+     "        self.testTearDown()"),
+    ('gc-threshold-not-restored', 'C18', 'src/zope/testrunner/garbagecollection.py',
+     "        gc.set_threshold(*self.old_threshold)", "        pass"),
+    ('teardown-not-in-finally', 'C18', R,
+     "            try:\n                if self.do_run_tests:\n                    self.run_tests()\n            finally:\n",
+     "            if self.do_run_tests:\n                self.run_tests()\n            if True:\n"),
+    ('tb-format-not-restored', 'C18', 'src/zope/testrunner/tb_format.py',
+     "        traceback.print_exception = self.old_print", "        pass"),
+    ('warnings-not-scoped', 'C18', R,
+     "        with warnings.catch_warnings():\n            if self.warnings:",
+     "        if True:\n            if self.warnings:"),
     ('stop-only-on-errors', 'C16', R,
      "            failure_or_error = None\n", "            failure_or_error = None\n"),
 ]
